@@ -748,6 +748,12 @@ func nativeReplay(repo, scratch string, overlayFiles map[string]string, dirs map
 		cmd.Env = append(goEnv(), "VERIF_REPLAY="+vecPath, "VERIF_TIER="+tier, "GOCACHE="+goCache())
 		out, err := cmd.CombinedOutput()
 		text := string(out)
+		if lf := os.Getenv("SYMGO_NATIVELOG"); lf != "" {
+			if f, ferr := os.OpenFile(lf, os.O_APPEND|os.O_CREATE|os.O_WRONLY, 0o644); ferr == nil {
+				f.WriteString(text)
+				f.Close()
+			}
+		}
 		cur := -1
 		for _, line := range strings.Split(text, "\n") {
 			line = strings.TrimRight(line, "\r")
